@@ -40,6 +40,8 @@ manifest = dict(
     version=1,
     setup_cmd=('/venv/bin/pip install -q --no-index --find-links '
                '/opt/veriftools/wheels hypothesis && '
+               '(/venv/bin/pip install -q --no-index --find-links '
+               '/opt/veriftools/wheels --target .deps atheris || true) && '
                'PYTHONPATH=/repo/src:. /venv/bin/python -c '
                '"import hypothesis, pycel, vlib.runner"'),
     hooks=dict(
